@@ -159,7 +159,7 @@ impl<const N: u32> PxE1<{ N }> {
                     float *= 0.5;
                     exp += 1;
                 }
-                let frac_length = (N - 3) as isize - (reg as isize);
+                let frac_length = N as isize - 3 - (reg as isize);
                 if frac_length < 0 {
                     if reg == N - 2 {
                         bit_n_plus_one = exp != 0;
@@ -195,7 +195,7 @@ impl<const N: u32> PxE1<{ N }> {
                         let regime = if reg_s { ((1 << reg) - 1) << 1 } else { 1_u32 };
 
                         let mut u_z = (regime << (30 - reg))
-                            + ((exp as u32) << (29 - reg))
+                            + (if reg <= 29 { (exp as u32) << (29 - reg) } else { 0 })
                             + (frac << (32 - N));
                         //minpos
                         if (u_z == 0) && (frac > 0) {
@@ -229,7 +229,7 @@ impl<const N: u32> PxE1<{ N }> {
                 exp += 1;
             }
 
-            let frac_length = (N - 3) as isize - (reg as isize);
+            let frac_length = N as isize - 3 - (reg as isize);
             if frac_length < 0 {
                 if reg == N - 2 {
                     bit_n_plus_one = exp != 0;
@@ -266,7 +266,7 @@ impl<const N: u32> PxE1<{ N }> {
                     let regime = if reg_s { ((1 << reg) - 1) << 1 } else { 1_u32 };
 
                     let mut u_z =
-                        (regime << (30 - reg)) + ((exp as u32) << (29 - reg)) + (frac << (32 - N));
+                        (regime << (30 - reg)) + (if reg <= 29 { (exp as u32) << (29 - reg) } else { 0 }) + (frac << (32 - N));
                     //minpos
                     if (u_z == 0) && (frac > 0) {
                         u_z = 0x1 << (32 - N);
@@ -292,16 +292,15 @@ impl<const N: u32> PxE1<{ N }> {
             return i32::min_value();
         }
 
-        let mut ui_a = self.to_bits();
-
-        let sign = ui_a > 0x_8000_0000; // sign is True if pA > NaR.
-
-        if sign {
-            ui_a = ui_a.wrapping_neg(); // A is now |A|.
+        // round in 64 bits, then saturate: magnitudes of 2^31 and above do not fit an i32
+        let i_z = self.to_i64();
+        if i_z > i32::MAX as i64 {
+            i32::MAX
+        } else if i_z < i32::MIN as i64 {
+            i32::MIN
+        } else {
+            i_z as i32
         }
-
-        let i_z = convert_px1bits_to_u32(ui_a);
-        u32_with_sign(i_z, sign) as i32
     }
 
     pub const fn to_u32(self) -> u32 {
